@@ -128,7 +128,10 @@ def run(tier, seed):
                     toks = [t.text for t in sxread.tokenize(show(fm))]
                     parts.append(layout(toks, rng, rng.choice(["tight", "loose", "loose"])))
                 sep = lambda: rng.choice(["\n", "\n\n", " ", "\n; a comment (with parens\n", "\n   ", "\r\n"])
-                text = rng.choice(["", "\n", "; header\n", "   "]) + "".join(p + sep() for p in parts[:-1]) + parts[-1] + rng.choice(["", "\n", "  ; trailing\n", "\n\n(define after 1)\n"])
+                # line and column numbers of every magnitude: hundreds of lines, more lines than 16 bits count, columns beyond 255 and beyond 65535
+                head = rng.choice(["", "\n", "; header\n", "   "] * 4 + ["\n" * 300, "; c\n" * 1000, "\n" * 70000])
+                indent = rng.choice([""] * 8 + [" " * 300, " " * 70000])
+                text = head + "".join(p + sep() for p in parts[:-1]) + indent + parts[-1] + rng.choice(["", "\n", "  ; trailing\n", "\n\n(define after 1)\n"])
                 cases.append({"fault": f, "context": c, "text": text, "nforms": len(forms), "offender": g.offender, "ndefs": len(defs)}); n += 1
     # identifiers that come from a macro template (a user macro calling an undefined helper; unless/case/or on an interpreter that did not import
     # not/memv): the offending identifier is not in the failing form's text, so the location has to fall back into the failing form
